@@ -136,10 +136,14 @@ PROPS = {
     ),
     'C14': dict(
         title='Calling an interface follows the PEP 246 adaptation order',
-        contracts=[], falsifier='C14', modes=['py', 'c'], level='other',
-        level_text='Bounded but exhaustive over the product of the statement: 9 conform behaviours x provided x hook lists (len<=2/3) x alternate x 4 custom __adapt__ behaviours, result and executed steps, both implementations.',
-        level_note='exhaustive over the stated product with hook lists up to length 2 (quick) / 3 (thorough); not a proof for longer lists',
-        explanation='bounded run-time contract checking of the real code against an executable specification written from the statement; no obligation discharged yet for this property',
+        contracts=['C14_adapt'], falsifier='C14', modes=['py', 'c'], level='proof',
+        level_text='InterfaceBase.__call__ and InterfaceBase.__adapt__ (Python reference) are verified from their real bodies against '
+                   'the decision list of the statement, with every external call (__conform__, hooks, custom __adapt__) modelled by '
+                   'result/raise oracles and a ghost call log: the result, the exception and the exact sequence of executed steps '
+                   'are those of the statement for every hook list length and every oracle. The C twins IB__call__/IB__adapt__ are '
+                   'compared with the same decision list exhaustively over the product of the statement (hook lists <= 2/3), bounded.',
+        level_note='assumes hooks do not edit the hook list (C11 covers that), providedBy is a pure query, the _call_conform '
+                   'TypeError heuristic is outside the domain; C twins bounded.',
     ),
     'C15': dict(
         title='Attribute, tagged-value and invariant resolution all follow the resolution order',
